@@ -278,6 +278,29 @@ def cmdRead (words : List String) : Option String := do
   | .crash s   => pure s!"CRASH:{String.ofList s}"
   | .outOfFuel => pure "OUTOFFUEL"
 
+
+/-! ### Lean source of a value (for `Generated/PreludeExpanded.lean`) -/
+
+def leanChars (n : List Char) : String :=
+  if n.all (fun c => 32 ≤ c.toNat && c.toNat < 127 && c != '"' && c != '\\') then "cs!\"" ++ String.ofList n ++ "\""
+  else "[" ++ ", ".intercalate (n.map fun c => s!"Char.ofNat {c.toNat}") ++ "]"
+
+def leanSrc : Src → String
+  | .native => ".native" | .prelude => ".prelude" | .stdin => ".stdin"
+  | .file p => s!"(.file {leanChars p})"
+
+partial def leanTerm : Val → String
+  | .nil => ".nil"
+  | .num n => if n < 0 then s!"(.num ({n}))" else s!"(.num {n})"
+  | .chr c => s!"(.chr (Char.ofNat {c.toNat}))"
+  | .sym (.named n) => s!"(.sym (.named {leanChars n}))"
+  | .sym (.gen i) => s!"(.sym (.gen {i}))"
+  | .cons a d => s!"(.cons {leanTerm a} {leanTerm d})"
+  | .fn k r p b e m => s!"(.fn {if k == .lambda then ".lambda" else ".macro"} {leanTerm r} {leanTerm p} {leanTerm b} {leanTerm e} {leanChars m})"
+  | .native id => s!"(.native {toString (repr id)})"
+  | .trap n h => s!"(.trap {leanTerm n} {leanTerm h})"
+  | .md v m => s!"(.md {leanTerm v} ⟨{leanChars m.readName}, ⟨{leanSrc m.loc.src}, {m.loc.line}, {m.loc.col}⟩, {leanChars m.doc}⟩)"
+
 structure DriverState where
   session : Option Session
   pipe    : Option Pipe
@@ -397,6 +420,22 @@ def handle (ds : DriverState) (line : String) : IO (String × DriverState) := do
           | .found w => w.unmeta != v
           | _        => true
         return (if bad.isEmpty then s!"ok {Prelude.table.length}" else "MISMATCH " ++ " ".intercalate (bad.map fun (n, _) => String.ofList n), ds)
+      | none => return ("driver-error no session", ds)
+    | "preludedump" =>
+      -- the closures that loading the current prelude.lisp binds for the definitions whose body uses a macro (their bodies are
+      -- stored macro-expanded): Lean source, one `name<TAB>params<TAB>rest<TAB>body` record per definition, records separated by ` ;; `
+      match ds.session with
+      | some sess =>
+        let defs := match sess.st.modules.find? (·.name == cs!"prelude") with
+          | some m => m.defs
+          | none   => []
+        let recs := defs.filterMap fun (name, w) =>
+          if Prelude.table.any (·.1 == name) then none else
+          match w.get with
+          | .fn k r p b .nil m =>
+            if m == cs!"prelude" then some (String.ofList name ++ "\t" ++ (if k == .lambda then "lambda" else "macro") ++ "\t" ++ leanTerm p ++ "\t" ++ leanTerm r ++ "\t" ++ leanTerm b) else none
+          | _ => none
+        return (" ;; ".intercalate recs, ds)
       | none => return ("driver-error no session", ds)
     | "whitespace" =>
       let cps := (List.range 0x110000).filter fun n => (n < 0xD800 || n > 0xDFFF) && isWhitespace (Char.ofNat n)
